@@ -60,7 +60,7 @@ def generate(tp: Tape, tier: str):
     case["reserved_mem"] = tp.choice([0, 0, 100, 1000, 12345])
     case["opt"] = tp.weighted([(dict(kind="default"), 5), (dict(kind="off"), 2), (PR.gen_opt(tp), 4)])
     case["always_fuse_all"] = tp.coin(1, 6)
-    case["sink"] = tp.choice(["compute", "compute", "to_zarr"])
+    case["sink"] = tp.choice(["compute", "compute", "to_zarr", "store_eager"])
     case["exec"] = H.exec_cfg_from_tape(tp, kinds=("single", "threads", "processes"))
     case["deltas"] = tp.sample([-1, 0, 1], 3) + [tp.choice([-7, 2, 64])]
     return case
@@ -122,6 +122,27 @@ def one_budget(case, allowed, sched_tape, tag):
                     return rec
                 req, arrays = [cand[0][0]], [lazy]
                 rec["requested"] = req
+        store_srcs = None
+        if sink == "store_eager":
+            # eager store() of several sources: the plan that will be admitted is inspected through the lazy form
+            # (fresh targets), then the eager call runs on the same sources with other fresh targets
+            cand = [(o, a) for o, a in zip(req, arrays) if a.size > 0 and a.ndim > 0]
+            if len(cand) < 2:
+                sink = "compute"
+            else:
+                store_srcs = [a for _, a in cand]
+                tg_a = [simstore.SimStore(name=f"ta{k}") for k in range(len(cand))]
+                tg_b = [simstore.SimStore(name=f"tb{k}") for k in range(len(cand))]
+                for t_ in tg_a + tg_b:
+                    sim.attach_store(t_)
+                try:
+                    lazies = cubed.store(store_srcs, tg_a, compute=False)
+                except Exception as e:  # noqa: BLE001
+                    rec.update(phase="build", exc=e)
+                    rec["dirty"] = dirtiness(sim)
+                    return rec
+                req, arrays = [o for o, _ in cand], list(lazies)
+                rec["requested"] = req
         rec["sink"] = sink
         og, of = PR.make_optimize_function(case.get("opt"))
         if case.get("always_fuse_all") and og:
@@ -147,7 +168,10 @@ def one_budget(case, allowed, sched_tape, tag):
         executor = H.make_executor(sim, case["exec"], st)
         cb = H.make_callback(sim)
         try:
-            if sink == "to_zarr":
+            if sink == "store_eager":
+                cubed.store(store_srcs, tg_b, executor=executor, callbacks=[cb], optimize_graph=og, optimize_function=of)
+                rec["results"] = []
+            elif sink == "to_zarr":
                 cubed.compute(arrays[0], executor=executor, callbacks=[cb], optimize_graph=og, optimize_function=of,
                               _return_in_memory_array=False)
                 import zarr
